@@ -490,6 +490,10 @@ func (s *State) load(l *Loc) (Term, types.Type) {
 	// make sure components exist in the current heap (registers @0 in Old too)
 	s.touch(l)
 	t, ty := s.loadIn(s.Heap, s.Cells, l)
+	if l.Kind == LocGlobal && len(l.Path) == 0 && s.C.P.ErrGlobals[l.Glob] && !s.C.P.MutableGlobals[l.Glob] {
+		// A-INIT: an error value made by errors.New / fmt.Errorf at package initialisation and never reassigned
+		s.assert(fmt.Sprintf("(not (= (i.tag %s) 0))", t))
+	}
 	return t, ty
 }
 
